@@ -131,6 +131,27 @@ def l1_l2(ctx, F):
                        "exact root entry, which can already be above the limit (`go depth 5` then `go depth 3` on the same position), so the "
                        "test never fires and the search runs on until stopped",
                   expected="limit <= depth", found=hir.fmt(b, 80))
+    # L1e: the limit test decides by itself: with the limit reached the exit condition holds whatever the other reasons to stop say
+    # (several moves, an ordinary score), and with the limit not reached and no other reason it does not
+    for n_if, anc_if in hir.walk(node):
+        if n_if.get("k") != "If":
+            continue
+        inside = [c_ for c_ in conds if any(x is c_[2] for x, _ in hir.walk(n_if["cond"]))]
+        if not inside:
+            continue
+        c0 = hir.resolve_std_ints(hir.resolve_consts(sym(n_if["cond"]), F))
+        rows = []
+        for reached in (True, False):
+            a_ = {("var", "is_only_move"): ("lit", False), ("var", "best_score"): ("lit", 0)}
+            for _, _, cn in inside:
+                a_[sym(cn)] = ("lit", reached)
+            v_ = hir.fold(hir.fold(c0, a_), a_)
+            if v_[:1] == ("lit",) and v_[1] is not reached:
+                rows.append(("limit reached" if reached else "limit not reached", "exit condition is %s" % v_[1]))
+        leaves_ = [x for x, _ in hir.walk(n_if["then"]) if x.get("k") in ("Ret", "Break")]
+        ctx.check("C08.L1", "limit-test-decides-by-itself", not rows and bool(leaves_), fn=DRIVER, file=fn["file"], line=hir.line(n_if),
+                  what="reaching the requested depth does not end the iteration loop by itself (it is and-ed with another reason to stop), "
+                       "or the loop ends although neither the limit nor another reason holds", expected="limit reached => exit", found=rows)
     # L1d: the limit test is reached by every completed iteration: no `continue` of the driver loop (an unlabelled one outside any
     # inner loop, or one labelled with the driver loop's label) lies before the test - it would start the next, deeper iteration
     # without asking whether the requested depth has been reached
